@@ -181,6 +181,19 @@ def gen_cases(rng: Rng, tier):
         for gi, g in enumerate(grids):
             for add_ in (True, False):
                 yield dict(kind="sim", fam=fam_, n=[3, 5, 2, 4, 6][gi % 5], add=add_, norm=False, x=[rs(v) for v in g], structured=True)
+    # value dtypes / containers of the sampling points: integer-valued grids stored as int64 / int32 / float32 / Python list
+    # (float32 grids are legitimately processed in single precision for sin / cos: tolerance 1e-6)
+    dgrids = {"bsplines": [Fraction(v) for v in (0, 1, 2, 4, 5, 7, 8)], "fourier": [Fraction(v) for v in (0, 1, 2, 3, 5, 6, 8)],
+              "legendre": [Fraction(-1), Fraction(0), Fraction(1)], "wiener": [Fraction(0), Fraction(1)]}
+    for fam_, g in dgrids.items():
+        for xdt in ("int64", "int32", "float32", "list"):
+            if fam_ == "wiener" and xdt == "list":
+                continue  # rejected by the unchanged code (TypeError): a list cannot be multiplied by a float
+            for add_ in (True, False):
+                c = dict(kind="sim", fam=fam_, n=3, add=add_, norm=False, x=[rs(v) for v in g], xdtype=xdt, structured=True)
+                if fam_ == "bsplines":
+                    c.update(p=2, dmin=rs(g[0]), dmax=rs(g[-1]), default_dom=(xdt != "list"))
+                yield c
     # boundary sizes of the B-spline family through _simulate_basis: n_functions in {degree-1, degree, degree+1},
     # with and without intercept, degree passed or left to its default (3); every degree, every run
     for p in range(1, 6):
@@ -377,6 +390,8 @@ def run_impl(case):
         out["v"] = v.tolist()
     elif kind in ("sim", "basis1"):
         x = _arr(case["x"])
+        if case.get("xdtype"):  # the same grid in another storage type (lossless by construction of the case)
+            x = x.tolist() if case["xdtype"] == "list" else x.astype({"int64": np.int64, "int32": np.int32, "float32": np.float32}[case["xdtype"]])
         fam = case["fam"]
         kw = _bs_kwargs(case) if fam == "bsplines" else {}
         if kind == "sim":
@@ -679,7 +694,8 @@ def compare(case, impl, model):
                 Q = Q[1:]
             xs = fl(_Fv(case["x"]))
             amax = max(abs(v) for v in xs) if fam == "wiener" else 1.0
-            tolf = lambda i, j: 1e-12 * (1 + (case["n"] + 1) * math.pi * amax) * max(1.0, abs(float(Q[i][j])))  # noqa: E731
+            lp = 1e-6 if case.get("xdtype") == "float32" else 1e-12
+            tolf = lambda i, j: lp * (1 + (case["n"] + 1) * math.pi * amax) * max(1.0, abs(float(Q[i][j])))  # noqa: E731
         ds = _cmp_matrix(f"{fam} raw", impl["raw"] if "raw" in impl else impl["v"], Q, tolf)
         if ds or not norm:
             if not ds and "raw" in impl:
@@ -782,7 +798,7 @@ def _oracle_closed_form(case, raw, entry, bad):
         bad("shape", f"{fam}: shape {V.shape} vs {want.shape}", entry)
         return
     amax = max(abs(v) for v in xs) if fam == "wiener" else 1.0
-    tol = 1e-11 * (1 + (nfull + 1) * math.pi * amax) * np.maximum(1.0, np.abs(want))
+    tol = (1e-6 if case.get("xdtype") == "float32" else 1e-11) * (1 + (nfull + 1) * math.pi * amax) * np.maximum(1.0, np.abs(want))
     err = np.abs(V - want)
     if not np.all(err <= tol):
         i, j = np.unravel_index(np.argmax(err - tol), err.shape)
@@ -1016,7 +1032,9 @@ def classify(case, impl):
     if case["kind"] == "multi":
         tags.append("multi:dims=" + "+".join(str(len(c["n"])) for c in case["comps"]))
         tags.append(f"multi:degree={case.get('p')},domain={'explicit' if 'dmin' in case else 'default'}")
-    if case.get("structured"):
+    if case.get("xdtype"):
+        tags.append("grid-dtype:" + case["xdtype"])
+    elif case.get("structured"):
         tags.append("grid:open-or-sub-interval(structured)")
     if case.get("labels"):
         tags.append("labels:not-in-sorted-order")
